@@ -1,61 +1,59 @@
 (* C24 — prettify preserves meaning and is idempotent: the literal and identifier layer.
    Model: Model/Codec.v (c) render_literal = ASTString.visit_Constant/_handle_literal, parse_literal = the grammar's `constant`
-   as built by Terminals.visitConstant; floats are finite decimals (<= 15 significant digits, for which CPython's repr is the
-   decimal itself; scientific iff exponent < -4 or >= 16 — X-checked on every generated literal by the harness);
-   `bias` is the oracle deciding exact decimal ties of %f/%g (sign of binary value - decimal).  (d) _format_reserved_word.
+   as built by Terminals.visitConstant; a float is the finite decimal its repr shows (CPython: scientific iff exponent < -4 or
+   >= 16 — py_repr is compared with repr() on every generated literal by the harness).  (d) _format_reserved_word.
    Partial: the whole renderer ASTString against the whole grammar is checked by correspondence only (harness). *)
 From Coq Require Import String Ascii List ZArith.
 Import ListNotations.
 From VTL Require Import Model.Codec Proofs.CodecP.
 
-Theorem C24_literal_roundtrip_int : forall bias z,
-  option_map parse_literal (render_literal bias (LInt z)) = Some (Some (LInt z)).
+Theorem C24_literal_roundtrip_int : forall z, parse_literal (render_literal (LInt z)) = Some (LInt z).
 Proof. exact literal_roundtrip_int. Qed.
 Print Assumptions C24_literal_roundtrip_int.
 
-Theorem C24_literal_roundtrip_bool : forall bias b,
-  option_map parse_literal (render_literal bias (LBool b)) = Some (Some (LBool b)).
+Theorem C24_literal_roundtrip_bool : forall b, parse_literal (render_literal (LBool b)) = Some (LBool b).
 Proof. exact literal_roundtrip_bool. Qed.
 Print Assumptions C24_literal_roundtrip_bool.
 
-Theorem C24_literal_roundtrip_null : forall bias,
-  option_map parse_literal (render_literal bias LNull) = Some (Some LNull).
+Theorem C24_literal_roundtrip_null : parse_literal (render_literal LNull) = Some LNull.
 Proof. exact literal_roundtrip_null. Qed.
 Print Assumptions C24_literal_roundtrip_null.
 
 (* all strings that a VTL script can contain (STRING_CONSTANT has no way to hold a double quote) *)
-Theorem C24_literal_roundtrip_string : forall bias s, has_dq s = false ->
-  option_map parse_literal (render_literal bias (LStr s)) = Some (Some (LStr s)).
+Theorem C24_literal_roundtrip_string : forall s, has_dq s = false -> parse_literal (render_literal (LStr s)) = Some (LStr s).
 Proof. exact literal_roundtrip_string. Qed.
 Print Assumptions C24_literal_roundtrip_string.
 
-(* numbers: the full statement is FALSE for the renderer as coded.  Witnesses (replayed on the engine by the harness):
-   0.0000001, 10000000000000000000000.0 (IndexError), 0.00001234, 12345.678, 1234567.5, 1.0, 0.00000015 *)
-Theorem C24_literal_roundtrip_number_refuted : forall bias,
+(* numbers, FULL statement for the renderer as coded now (/repo 70d45d5: repr, Decimal 'f' when it has an exponent, '.0' when
+   it has no point): every canonical decimal = every finite float through the digits of its repr *)
+Theorem C24_literal_roundtrip_number : forall d, dec_canon d = true ->
+  parse_literal (render_literal (LNum d)) = Some (LNum d).
+Proof. exact literal_roundtrip_number. Qed.
+Print Assumptions C24_literal_roundtrip_number.
+
+(* the coded float renderer is the specified one *)
+Theorem C24_render_float_impl_is_spec : forall d, dec_canon d = true -> render_float_impl d = render_float_spec d.
+Proof. exact render_float_impl_is_spec. Qed.
+Print Assumptions C24_render_float_impl_is_spec.
+
+(* every literal *)
+Theorem C24_literal_roundtrip : forall l, lit_ok l -> parse_literal (render_literal l) = Some l.
+Proof. exact literal_roundtrip. Qed.
+Print Assumptions C24_literal_roundtrip.
+
+(* BEFORE THE FIX the statement was false: witnesses 0.0000001, 10000000000000000000000.0 (IndexError), 0.00001234, 12345.678,
+   1234567.5, 1.0, 0.00000015 (the harness checks that they now round-trip on the engine) … *)
+Theorem C24_literal_roundtrip_number_refuted_before_fix : forall bias,
   Forall (fun d => dec_canon d = true /\
-                   option_map parse_literal (render_literal bias (LNum d)) <> Some (Some (LNum d))) number_witnesses.
-Proof. exact literal_roundtrip_number_refuted. Qed.
-Print Assumptions C24_literal_roundtrip_number_refuted.
+                   option_map parse_literal (render_float_before_fix bias d) <> Some (Some (LNum d))) number_witnesses.
+Proof. exact literal_roundtrip_number_refuted_before_fix. Qed.
+Print Assumptions C24_literal_roundtrip_number_refuted_before_fix.
 
-Theorem C24_render_float_raises : forall bias,
-  render_literal bias (LNum (Dn false "" "0000001")) = None
-  /\ render_literal bias (LNum (Dn false "10000000000000000000000" "")) = None.
-Proof. exact render_float_raises. Qed.
-Print Assumptions C24_render_float_raises.
-
-(* … and holds on the closed-form domain: fixed-notation repr with (1..4 decimals and <= 6 significant digits) or (5 or 6
-   decimals), or 0.0000ab.  (The harness compares this domain with the computed round trip on every generated literal:
-   outside it no round trip was ever observed, i.e. the domain is exact on everything sampled.) *)
-Theorem C24_literal_roundtrip_number_partial : forall bias d, float_roundtrip_domain d = true ->
-  option_map parse_literal (render_literal bias (LNum d)) = Some (Some (LNum d)).
-Proof. exact literal_roundtrip_number_domain. Qed.
-Print Assumptions C24_literal_roundtrip_number_partial.
-
-(* the specified renderer (print the decimal itself) has no such restriction *)
-Theorem C24_literal_roundtrip_number_spec : forall d, dec_canon d = true -> dfrac d <> [] ->
-  option_map parse_literal (render_literal_spec (LNum d)) = Some (Some (LNum d)).
-Proof. exact literal_roundtrip_number_spec. Qed.
-Print Assumptions C24_literal_roundtrip_number_spec.
+(* … and held only on this closed-form domain *)
+Theorem C24_literal_roundtrip_number_partial_before_fix : forall bias d, float_roundtrip_domain d = true ->
+  option_map parse_literal (render_float_before_fix bias d) = Some (Some (LNum d)).
+Proof. exact literal_roundtrip_number_domain_before_fix. Qed.
+Print Assumptions C24_literal_roundtrip_number_partial_before_fix.
 
 (* identifiers: the specified quoting rule round-trips every name … *)
 Theorem C24_quote_reserved_roundtrip : forall reserved n, has_sq n = false ->
@@ -78,9 +76,10 @@ Proof. exact quote_reserved_roundtrip_impl_refuted. Qed.
 Print Assumptions C24_quote_reserved_roundtrip_impl_refuted.
 
 (* hypotheses are satisfiable *)
-Example C24_example_domain :
-  float_roundtrip_domain (Dn false "2" "25") = true /\ float_roundtrip_domain (Dn true "" "000015") = true
-  /\ float_roundtrip_domain (Dn false "1234" "123456") = true /\ float_roundtrip_domain (Dn false "12345" "678") = false.
+Example C24_example_canon :
+  dec_canon (Dn false "2" "25") = true /\ dec_canon (Dn true "" "0000001") = true /\ dec_canon (Dn false "1" "") = true
+  /\ dec_canon (Dn true "" "") = true /\ dec_canon (Dn false "10000000000000000000000" "") = true
+  /\ render_float_impl (Dn false "" "0000001") = B "0.0000001" /\ render_float_impl (Dn false "1" "") = B "1.0".
 Proof. vm_compute. repeat split. Qed.
 Example C24_example_ident :
   has_sq (B "calc") = false /\ mem_bytes (B "calc") [B "calc"; B "filter"] = true /\ is_plain_ident (B "Me_1") = true
